@@ -154,7 +154,11 @@ pub fn run(cfg: &RunCfg) -> PartResult {
         ..Default::default()
     };
     let mut covered = vec![];
-    for entry in entries(cfg.tier, false) {
+    let mut list = entries(cfg.tier, false);
+    // Gaussian pairs straddling loop vectors need odd D and three loops
+    list.push(crate::catalogue::banana(3, 3));
+    list.push(crate::catalogue::banana(3, 1));
+    for entry in list {
         let dims: Vec<usize> = if cfg.tier == Tier::Thorough { entry.dims.clone() } else { vec![entry.dims[(cfg.seed as usize) % entry.dims.len()]] };
         for d in dims {
             let l = entry.ograph().num_loops();
